@@ -368,6 +368,22 @@ static int mode_fmg(int cases)
             for (int i = 0; i < expect.size(); i++) d = std::max(d, std::abs(expect[i] - v.level(0).solution()[i]));
             printf("ORC case=%d fmg_two_level_diff=%s scale=%s\n", c, hex(d).c_str(), hex(max_abs(expect)).c_str());
         }
+        if (fmg_it == 0 && extrap != 0) {
+            // without FMG cycles the start vector is "coarsest direct solve, then interpolate level by level": no smoother, no cycle —
+            // it cannot depend on the extrapolation mode.  Twin object with extrapolation off, otherwise the same options.
+            Opts o2 = o;
+            o2.set("extrapolation", 0);
+            GMGPolar g2;
+            o2.apply(g2);
+            g2.setup();
+            GMGPolarVerif v2(g2);
+            if (v2.levels() == L) {
+                v2.initializeSolution();
+                double d = 0, sc = 0;
+                for (int i = 0; i < v.level(0).solution().size(); i++) { d = std::max(d, std::abs(v.level(0).solution()[i] - v2.level(0).solution()[i])); sc = std::max(sc, std::abs(v2.level(0).solution()[i])); }
+                printf("ORC case=%d fmg_start_depends_on_extrapolation_diff=%s scale=%s L=%d extrap=%d fmg_cycle=%d\n", c, hex(d).c_str(), hex(sc).c_str(), L, extrap, fmg_cycle);
+            }
+        }
     }
     // C09 through the public interface: the start vector (solve() with maxIterations = 0) of an object that has already run a
     // full solve must be bit-identical to the start vector of a fresh object — for every extrapolation mode (COMBINED switches the
